@@ -316,6 +316,28 @@ def ast_length_list_validators():
     return sorted(out)
 
 
+def runtime_image_computers():
+    """([(property, computer function name)] for the two gradient computers, [properties whose validator takes a
+    gradient]) — from the runtime registries."""
+    from weasyprint.css import computed_values
+    from weasyprint.css.utils import remove_whitespace
+    from weasyprint.css.validation.properties import PROPERTIES
+    import tinycss2
+    computers = sorted(
+        (key.replace('_', '-'), fn.__name__) for key, fn in computed_values.COMPUTER_FUNCTIONS.items()
+        if fn.__name__ in ('background_image', 'image'))
+    tokens = remove_whitespace(tinycss2.parse_component_value_list('linear-gradient(red 1in, blue 2in)'))
+    valued = []
+    for name, fn in sorted(PROPERTIES.items()):
+        try:
+            value = fn(tokens, 'http://c07.test/') if fn.wants_base_url else fn(tokens)
+        except Exception:  # noqa: BLE001 - not this table's business
+            value = None
+        if value is not None:
+            valued.append(name)
+    return computers, valued
+
+
 def _opt_int(v):
     return 'none' if v is None else f'some ({v})'
 
@@ -330,6 +352,7 @@ def _clause(c):
 def generate():
     table, skipped = ast_numeric_validators()
     length_lists = ast_length_list_validators()
+    computers, valued = runtime_image_computers()
     if not table:
         raise ExtractionError('no numeric @single_token validator found in properties.py')
     rows = [f'({lean_str(name)}, {lean_str(fn)}, {lean_list([_clause(c) for c in clauses])})'
@@ -349,6 +372,12 @@ def numericValidators : List (String × String × List Clause) := {lean_list(row
 /-- Validators of the shape "one or two lengths" (`lengths = [get_length(token, negative=…, percentage=…) for token in
 tokens]`, one length doubled, two kept): (property, function, negative, percentage) (AST), sorted by property. -/
 def lengthListValidators : List (String × String × Bool × Bool) := {lean_list([f"({lean_str(n)}, {lean_str(f)}, {'true' if a else 'false'}, {'true' if b else 'false'})" for n, f, a, b in length_lists])}
+
+/-- `COMPUTER_FUNCTIONS` entries bound to the two gradient computers: (property, function name) (runtime). -/
+def imageComputers : List (String × String) := {lean_list([f"({lean_str(n)}, {lean_str(f)})" for n, f in computers])}
+
+/-- Properties whose registered validator accepts `linear-gradient(red 1in, blue 2in)` (runtime probe). -/
+def gradientValued : List String := {lean_list([lean_str(n) for n in valued])}
 
 /-- Numeric-looking `@single_token` validators outside the clause subset (not mirrored): (function, reason). -/
 def notMirrored : List (String × String) := {lean_list([f"({lean_str(f)}, {lean_str(w)})" for f, w in skipped])}
